@@ -29,10 +29,13 @@ func (t *WeightedMerkleTrie) GetPath(keys [][]byte) ([]byte, error) {
 		}
 	}
 
-	if len(keys) > 10 {
+	// the parallel collection works branch by branch and needs a branch at the root,
+	// any other root (shared-prefix node, single entry) is marked sequentially
+	node, rootIsBranch := t.root.(*routingNode)
+	if len(keys) > 10 && rootIsBranch {
 		eg, _ := errgroup.WithContext(context.TODO())
 		eg.SetLimit(5)
-		if node, ok := t.root.(*routingNode); ok {
+		{
 			node.toCollect = true
 			var branchMu = [16]sync.Mutex{}
 			for i := 0; i < len(keys); i++ {
